@@ -45,6 +45,20 @@ OnlyLastShort == \A i \in 1..(Len(pieces) - 1) : pieces[i][2] = k
 (* ---- (b) last_bytes ---- *)
 LastBytes(size, num) == [start |-> size - Min(num, size), len |-> Min(num, size)]
 
+(* ---- (b2) what stands at the path: links ---- *)
+\* ensure_tree / delete_if_exists when the last component is a symbolic link.  "A directory" is what the path resolves
+\* to (the work is done if a directory can be reached through it); removing a link removes the link, not its target.
+PathKinds == {"dir", "link_to_dir", "link_to_file", "dangling_link", "file", "missing"}
+LinkCases == {[op |-> o, kind |-> kd] : o \in {"ensure_tree", "delete_if_exists"}, kd \in PathKinds}
+\* [res: "ok" | "raises", path: what stands at the path afterwards, target: the link's target still there]
+LinkRef(x) ==
+  IF x.op = "ensure_tree"
+  THEN IF x.kind \in {"dir", "link_to_dir"} THEN [res |-> "ok", path |-> x.kind, target |-> TRUE]
+       ELSE IF x.kind = "missing" THEN [res |-> "ok", path |-> "dir", target |-> TRUE]
+       ELSE [res |-> "raises", path |-> x.kind, target |-> TRUE]
+  ELSE IF x.kind = "dir" THEN [res |-> "raises", path |-> "dir", target |-> TRUE]          \* unlink of a directory is an error other than not-found
+       ELSE [res |-> "ok", path |-> "missing", target |-> TRUE]
+
 (* ---- (c) file system ---- *)
 \* fs = <<kind of a, kind of a/b, kind of a/b/c>>, kinds: "m" missing, "f" file, "d" dir
 WellFormed(s) == /\ (s[2] # "m" => s[1] = "d") /\ (s[3] # "m" => s[2] = "d")
